@@ -136,6 +136,14 @@ Definition procrustes_gap_ok (U : M) (s : list Q) (V rows : M) : bool :=
   procrustes_case_ok m n (length s) U s V rows d
   && Qle_bool (procrustes_gap Qops (1 # 1000000000) d U s V rows) (Qred ((1 # 10000000) * S)).
 
+(* feasibility of the matrix the executed model returns for procrustes, WITHOUT the exact SVD contract (Proofs/ProxProofsProcrustesFeas:
+   C12_procrustes_feasible_case_certified / C12_procrustes_nearest_case_certified): the Gram matrix of its columns (tall / square input) or of its rows
+   (wide input) is within 1e-9 of the identity entrywise, decided in exact arithmetic *)
+Definition procrustes_feasible_ok (m n : nat) (X : M) : bool :=
+  Nat.leb 1 m && Nat.leb 1 n && rectb m n X
+  && (if Nat.leb n m then rows_close (1 # 1000000000) 0 (gram_cols Qops X) (identity_mat Qops n)
+      else rows_close (1 # 1000000000) 0 (gram_rows Qops X) (identity_mat Qops m)).
+
 (* exact certificates decided on the MODEL's output (so that the theorems of Proofs/ apply to it) *)
 Definition model_cert (atol rtol : Q) (o : op) (rows : M) : bool :=
   let out := run o rows in
@@ -149,6 +157,7 @@ Definition model_cert (atol rtol : Q) (o : op) (rows : M) : bool :=
   | OSvt t U s V => svd_tape_ok atol rtol U s V rows && svt_gap_ok t U s V rows
                     && (negb (Qle_bool 0 t) || svt_case_ok (length rows) (length (hd [] rows)) (length s) U s V rows t)
   | OProcrustes U s V => svd_tape_ok atol rtol U s V rows && procrustes_gap_ok U s V rows
+                         && procrustes_feasible_ok (length rows) (length (hd [] rows)) out
   | _ => true
   end.
 
